@@ -100,7 +100,9 @@ def prove(prop, tier, R, only_keys=None):
         effects = [o for o in effect_obligations() if (prop == "C10" and "bonds-are-made-only" not in o.name)
                    or (prop == "C18" and (".graph_generate." in o.name or ".stochastic_atom_graph." in o.name))
                    or (prop == "C04" and "bonds-are-made-only" in o.name)]
-    timeout = 10 if tier == "quick" else 60
+    # per-query wall-clock budget: obligations enter the lock only if they discharge well inside it on the unchanged tree (the slowest locked one takes < 5 s),
+    # so that a busy machine does not flip a verdict
+    timeout = 30 if tier == "quick" else 90
     t0 = time.time()
     solve_all(obligations, timeout=timeout)
     obligations += effects          # decided on the syntax tree (back end "syntactic")
